@@ -383,3 +383,8 @@ func panicOrigin(stack []byte) string {
 	}
 	return ""
 }
+
+func atomicStore(p *int32, v int32) { atomic.StoreInt32(p, v) }
+func atomicLoad(p *int32) int32     { return atomic.LoadInt32(p) }
+
+func jsonUnmarshal(b []byte, v interface{}) error { return json.Unmarshal(b, v) }
